@@ -11,6 +11,8 @@ from . import tlc as _tlc
 
 ROOT = os.path.dirname(os.path.dirname(os.path.dirname(os.path.abspath(__file__))))
 REPO = os.environ.get("VERIF_REPO", "/repo")
+# where evidence/ and replays/ are written (seeded-change runs against scratch trees write elsewhere)
+OUT = os.environ.get("VERIF_OUT", ROOT)
 FINDINGS_FILE = os.path.join(ROOT, "known_findings.json")
 
 
@@ -126,7 +128,7 @@ class Ctx:
             return False
         if key in self.violations:
             return True
-        d = os.path.join(ROOT, "replays", self.pid)
+        d = os.path.join(OUT, "replays", self.pid)
         os.makedirs(d, exist_ok=True)
         path = os.path.join(d, hashlib.sha1(key.encode()).hexdigest()[:12] + ".json")
         with open(path, "w") as f:
@@ -174,7 +176,7 @@ class Ctx:
             "wall_s": round(time.time() - self.t0, 2),
             "violations": len(self.violations),
         }
-        d = os.path.join(ROOT, "evidence")
+        d = os.path.join(OUT, "evidence")
         os.makedirs(d, exist_ok=True)
         tmp = os.path.join(d, self.pid + ".json.tmp")
         with open(tmp, "w") as f:
